@@ -3,6 +3,7 @@
 package common
 
 import (
+	"math"
 	"bufio"
 	"encoding/json"
 	"fmt"
@@ -159,6 +160,21 @@ type Universe struct {
 	IDs, PKs, TagNames, TagVals []string
 	Kinds                       []int64
 	TSMax                       int64
+	// Extreme: percentage chance that a created_at / since / until is drawn from the
+	// ends of int64 instead of 0..TSMax
+	Extreme int
+}
+
+// ExtremeTS are created_at values at which int64 arithmetic on timestamps misbehaves
+// (x+1, a-b, time.Unix(x, 0)) when it is not written with care.
+var ExtremeTS = []int64{math.MinInt64, math.MinInt64 + 1, -9000000000000000000, -10, -1,
+	1 << 31, 1 << 32, 9000000000000000000, 9223371974719179007, 9223371974719179008, math.MaxInt64 - 1, math.MaxInt64}
+
+func (u Universe) ts(r *Rand, span int64) int64 {
+	if u.Extreme > 0 && r.Chance(u.Extreme) {
+		return Pick(r, ExtremeTS)
+	}
+	return int64(r.Intn(int(span)))
 }
 
 var Small = Universe{
@@ -174,7 +190,7 @@ func (u Universe) Event(r *Rand, idx int) JEvent {
 	e := JEvent{
 		ID:   Pick(r, u.IDs),
 		PK:   Pick(r, u.PKs),
-		TS:   int64(r.Intn(int(u.TSMax) + 1)),
+		TS:   u.ts(r, u.TSMax+1),
 		Kind: Pick(r, u.Kinds),
 		Tags: [][]string{},
 	}
@@ -243,10 +259,10 @@ func (u Universe) Filter(r *Rand, sel int) JFilter {
 		f.Tags = &tcs
 	}
 	if r.Chance(sel) {
-		f.Since = Ptr(int64(r.Intn(int(u.TSMax) + 2)))
+		f.Since = Ptr(u.ts(r, u.TSMax+2))
 	}
 	if r.Chance(sel) {
-		f.Until = Ptr(int64(r.Intn(int(u.TSMax) + 2)))
+		f.Until = Ptr(u.ts(r, u.TSMax+2))
 	}
 	if r.Chance(50) {
 		f.Limit = Ptr(int64(r.Intn(4)))
